@@ -83,7 +83,9 @@ def opVm (j : Json) : P Json := do
 
 /-- `{"op":"stack", layers, names}` : what the stack exposes (C02 / C09 / C18). -/
 def opStack (j : Json) : P Json := do
-  let raws ← (← jArr (← jField j "layers")).mapM rawLayerOfJson
+  let raws ← match j.getObjVal? "tree" with
+    | .ok t => do pure (← pipeOfJson t).flatten
+    | .error _ => (← jArr (← jField j "layers")).mapM rawLayerOfJson
   let names ← jStrs (← jField j "names")
   match sigOf (layersOf raws) with
   | .error .graphError => pure (Json.mkObj [("construct_err", .str "GraphError")])
